@@ -79,6 +79,7 @@ pub fn run(env: &mut Env) -> Outcome {
             _ => CcKind::UnknownType(*ctx.pick("unk_type", &[0u8, 4, 5, 0x7f, 0x80, 0xff, 0x12, 6])),
         };
         p.neg_flags = ctx.choose("neg_flags", 256) as u8;
+        p.honour_restricted_admin = false;
         p.neg_length = if ctx.chance("neg_len_bad", 1, 8) { *ctx.pick("neg_len", &[0u16, 7, 9, 0xffff, 16]) } else { 8 };
         p.cert = ctx.choose("cert", TRUSTED.len() as u64) as usize;
         let net = gen_benign_net(&mut ctx);
